@@ -141,93 +141,111 @@ def reference(f, mc, sd, lw, nw, fstd, rng):
     p = peaks.pop()
     if p is None:
         return "no-peak"
-    a, b = slices[0]
     f0, A0 = f[p], mc[p]
-    sa = np.exp(sd)
-    rel, cl = [], []
-    rel.append(_cmp(10.0 / lw, f0, None))
-    rel.append(_cmp(200.0, lw * nw * f0, None))
 
-    def regions(lo, hi):
-        """index sets under the readings: open/closed interval x trimmed/full curve"""
-        out = []
-        idx_all = np.arange(n)
-        for trimmed in (True, False):
-            base = (idx_all >= a) & (idx_all < b) if trimmed else np.ones(n, dtype=bool)
-            for closed in (False, True):
-                m = ((f >= lo) & (f <= hi)) if closed else ((f > lo) & (f < hi))
-                out.append(base & m)
-        return out
-    # reliability iii
-    limits = [2.0] if f0 > 0.5 else [3.0]
-    if abs(f0 - 0.5) < 1e-12:
-        limits = [2.0, 3.0]
-    v = set()
-    for reg in regions(0.5 * f0, 2.0 * f0):
-        if reg.any():
-            for lim in limits:
-                v |= _cmp(float(np.max(sa[reg])), lim, None)
-    rel.append(v or {0, 1})
-    # clarity i, ii
-    for lo, hi in ((f0 / 4.0, f0), (f0, 4.0 * f0)):
+    def verdicts(a, b):
+        f0, A0 = f[p], mc[p]
+        sa = np.exp(sd)
+        rel, cl = [], []
+        rel.append(_cmp(10.0 / lw, f0, None))
+        rel.append(_cmp(200.0, lw * nw * f0, None))
+
+        def regions(lo, hi):
+            """index sets under the readings: open/closed interval x trimmed/full curve"""
+            out = []
+            idx_all = np.arange(n)
+            for trimmed in (True, False):
+                base = (idx_all >= a) & (idx_all < b) if trimmed else np.ones(n, dtype=bool)
+                for closed in (False, True):
+                    m = ((f >= lo) & (f <= hi)) if closed else ((f > lo) & (f < hi))
+                    out.append(base & m)
+            return out
+        # reliability iii
+        limits = [2.0] if f0 > 0.5 else [3.0]
+        if abs(f0 - 0.5) < 1e-12:
+            limits = [2.0, 3.0]
         v = set()
-        for reg in regions(lo, hi):
-            reg = reg & (np.arange(n) != p)
-            vals = mc[reg]
-            if len(vals) == 0:
-                v.add(0)
-                continue
-            knife = np.any(np.abs(vals - A0 / 2.0) < 1e-9 * A0)
-            if knife:
-                v |= {0, 1}
-            else:
-                v.add(int(np.any(vals < A0 / 2.0)))
-        cl.append(v)
-    cl.append(_cmp(2.0, A0, None))
-    # clarity iv: peaks of the upper / lower curves within 5 % of f0
-    up = _highest_peak((mc * sa)[a:b])
-    dn = _highest_peak((mc / sa)[a:b])
-    if up is None or dn is None:
-        cl.append({0})        # a +/- std curve without a peak in the range cannot have it within 5 % of f0
-    else:
-        v = {1}
-        for q in (a + up, a + dn):
-            inside = _cmp(0.95 * f0, f[q], None) & _cmp(f[q], 1.05 * f0, None) if False else None
-            lo_ok, hi_ok = _cmp(0.95 * f0, f[q], None), _cmp(f[q], 1.05 * f0, None)
-            if lo_ok == {0} or hi_ok == {0}:
-                v = {0}
-                break
-            if lo_ok == {0, 1} or hi_ok == {0, 1}:
-                v = {0, 1}
-        cl.append(v)
-    # table
-    cols = set()
-    for k, e in enumerate(EDGES):
-        pass
-    if f0 < 0.2:
-        cols = {0}
-    elif f0 == 0.2:
-        cols = {1}
-    elif f0 < 0.5:
-        cols = {1}
-    elif f0 == 0.5:
-        cols = {1, 2}
-    elif f0 < 1.0:
-        cols = {2}
-    elif f0 == 1.0:
-        cols = {2, 3}
-    elif f0 < 2.0:
-        cols = {3}
-    elif f0 == 2.0:
-        cols = {3, 4}      # the table lists 2.0 under '1.0 - 2.0'; the '> 2.0' reading of the code is accepted too (DESIGN 4.2)
-    else:
-        cols = {4}
-    v5, v6 = set(), set()
-    for c in cols:
-        eps, theta = TABLE[c]
-        v5 |= _cmp(fstd, eps * f0, None)
-        v6 |= _cmp(float(sa[p]), theta, None)
-    cl += [v5, v6]
+        for reg in regions(0.5 * f0, 2.0 * f0):
+            if reg.any():
+                for lim in limits:
+                    v |= _cmp(float(np.max(sa[reg])), lim, None)
+        rel.append(v or {0, 1})
+        # clarity i, ii
+        for lo, hi in ((f0 / 4.0, f0), (f0, 4.0 * f0)):
+            v = set()
+            for reg in regions(lo, hi):
+                reg = reg & (np.arange(n) != p)
+                vals = mc[reg]
+                if len(vals) == 0:
+                    v.add(0)
+                    continue
+                knife = np.any(np.abs(vals - A0 / 2.0) < 1e-9 * A0)
+                if knife:
+                    v |= {0, 1}
+                else:
+                    v.add(int(np.any(vals < A0 / 2.0)))
+            cl.append(v)
+        cl.append(_cmp(2.0, A0, None))
+        # clarity iv: peaks of the upper / lower curves within 5 % of f0
+        up = _highest_peak((mc * sa)[a:b])
+        dn = _highest_peak((mc / sa)[a:b])
+        if up is None or dn is None:
+            cl.append({0})        # a +/- std curve without a peak in the range cannot have it within 5 % of f0
+        else:
+            v = {1}
+            for q in (a + up, a + dn):
+                inside = _cmp(0.95 * f0, f[q], None) & _cmp(f[q], 1.05 * f0, None) if False else None
+                lo_ok, hi_ok = _cmp(0.95 * f0, f[q], None), _cmp(f[q], 1.05 * f0, None)
+                if lo_ok == {0} or hi_ok == {0}:
+                    v = {0}
+                    break
+                if lo_ok == {0, 1} or hi_ok == {0, 1}:
+                    v = {0, 1}
+            cl.append(v)
+        # table
+        cols = set()
+        for k, e in enumerate(EDGES):
+            pass
+        if f0 < 0.2:
+            cols = {0}
+        elif f0 == 0.2:
+            cols = {1}
+        elif f0 < 0.5:
+            cols = {1}
+        elif f0 == 0.5:
+            cols = {1, 2}
+        elif f0 < 1.0:
+            cols = {2}
+        elif f0 == 1.0:
+            cols = {2, 3}
+        elif f0 < 2.0:
+            cols = {3}
+        elif f0 == 2.0:
+            cols = {3, 4}      # the table lists 2.0 under '1.0 - 2.0'; the '> 2.0' reading of the code is accepted too (DESIGN 4.2)
+        else:
+            cols = {4}
+        v5, v6 = set(), set()
+        for c in cols:
+            eps, theta = TABLE[c]
+            v5 |= _cmp(fstd, eps * f0, None)
+            v6 |= _cmp(float(sa[p]), theta, None)
+        cl += [v5, v6]
+        return rel, cl, cols
+
+    # every admissible reading of the range ends (nearest-sample ties, inclusive / exclusive upper end) contributes
+    merged_rel, merged_cl, cols = None, None, None
+    for a_, b_ in sorted(set(slices)):
+        if b_ - a_ < 3 or not (a_ <= p < b_):
+            continue
+        rel_, cl_, cols = verdicts(a_, b_)
+        if merged_rel is None:
+            merged_rel, merged_cl = [set(x) for x in rel_], [set(x) for x in cl_]
+        else:
+            merged_rel = [x | y for x, y in zip(merged_rel, rel_)]
+            merged_cl = [x | y for x, y in zip(merged_cl, cl_)]
+    if merged_rel is None:
+        return None
+    rel, cl = merged_rel, merged_cl
     return dict(rel=rel, cl=cl, f0=float(f0), A0=float(A0), cols=cols)
 
 
